@@ -89,6 +89,19 @@ class Tr:
             return
         if e.get("kind") == "LambdaExpr":
             return
+        if e.get("kind") == "CallExpr" and e.get("inner"):
+            callee = strip(e["inner"][0])
+            rd = callee.get("referencedDecl", {}) if callee.get("kind") == "DeclRefExpr" else {}
+            if rd.get("kind") == "FunctionDecl" and rd.get("name"):
+                for i, a in enumerate(e["inner"][1:]):
+                    p = self.ref(a)
+                    if p is not None:
+                        # the tracked pointer itself is handed to a function: what the function does with it is looked up
+                        # later (resolve_calls): read; plus delete / reset when the callee deletes that parameter
+                        out.append(("call", rd["name"], i, p))
+                    else:
+                        self.reads(a, out)
+                return
         for c in e.get("inner", []) or []:
             self.reads(c, out)
 
@@ -222,6 +235,72 @@ class Tr:
         return out
 
 
+def callee_effects(objs, fname):
+    """for every definition of function fname in objs: {param index: (deleted, by_reference, reset_to_null)}"""
+    res = {}
+    def visit(o):
+        if o.get("kind") == "FunctionDecl" and o.get("name") == fname:
+            body = [x for x in o.get("inner", []) or [] if x.get("kind") == "CompoundStmt"]
+            params = [x for x in o.get("inner", []) or [] if x.get("kind") == "ParmVarDecl"]
+            if body:
+                for i, pv in enumerate(params):
+                    qt = pv.get("type", {}).get("qualType", "")
+                    if "*" not in qt:
+                        continue
+                    st = {"del": False, "reset": False}
+                    def scan(e):
+                        if not isinstance(e, dict):
+                            return
+                        if e.get("kind") == "CXXDeleteExpr" and e.get("inner"):
+                            t = strip(e["inner"][0])
+                            if t.get("kind") == "DeclRefExpr" and t.get("referencedDecl", {}).get("id") == pv.get("id"):
+                                st["del"] = True
+                        if e.get("kind") == "BinaryOperator" and e.get("opcode") == "=" and st["del"]:
+                            l, r = e["inner"]
+                            l, r = strip(l), strip(r)
+                            if l.get("kind") == "DeclRefExpr" and l.get("referencedDecl", {}).get("id") == pv.get("id") and \
+                               r.get("kind") in ("CXXNullPtrLiteralExpr", "GNUNullExpr"):
+                                st["reset"] = True
+                        for c in e.get("inner", []) or []:
+                            scan(c)
+                    scan(body[0])
+                    if st["del"]:
+                        byref = qt.rstrip().endswith("&")
+                        old = res.get(i)
+                        # several definitions (overloads / template instances): keep the most dangerous reading
+                        new = (True, byref, st["reset"] and byref)
+                        res[i] = new if old is None else (True, old[1] and new[1], old[2] and new[2])
+        for c in o.get("inner", []) or []:
+            if isinstance(c, dict):
+                visit(c)
+    for o in objs:
+        visit(o)
+    return res
+
+
+def resolve_calls(ops, resolver):
+    """replace ("call", f, i, p) by the read of p plus the effect the callee has on its i-th parameter"""
+    out = []
+    for o in ops:
+        t = o[0]
+        if t == "call":
+            out.append(("read", o[3]))
+            eff = resolver(o[1]).get(o[2]) if resolver else None
+            if eff:
+                out.append(("delete", o[3]))
+                if eff[2]:
+                    out.append(("assign", o[3], "PNull"))
+        elif t == "ifptr":
+            out.append((t, o[1], resolve_calls(o[2], resolver), resolve_calls(o[3], resolver)))
+        elif t == "if":
+            out.append((t, resolve_calls(o[1], resolver), resolve_calls(o[2], resolver)))
+        elif t == "loop":
+            out.append((t, resolve_calls(o[1], resolver)))
+        else:
+            out.append(o)
+    return out
+
+
 def to_coq(ops):
     if not ops:
         return "SSkip"
@@ -267,7 +346,7 @@ def relevant(ops):
     return out
 
 
-def class_programs(objs, clsname):
+def class_programs(objs, clsname, resolver=None):
     # out-of-line constructor / destructor definitions appear as top-level declarations
     ool_ctors = [o for o in objs if o.get("kind") == "CXXConstructorDecl" and o.get("name") == clsname
                  and any(x.get("kind") == "CompoundStmt" for x in o.get("inner", []) or [])]
@@ -327,11 +406,11 @@ def class_programs(objs, clsname):
             if dtor:
                 ops += tr.stmt([x for x in dtor[0]["inner"] if x.get("kind") == "CompoundStmt"][0])
             sig = ct.get("type", {}).get("qualType", "")
-            progs.append(dict(name="%s::ctor%d" % (clsname, ci), where="%s %s" % (clsname, sig[:80]), ptrs=list(tr.names), ops=relevant(ops)))
+            progs.append(dict(name="%s::ctor%d" % (clsname, ci), where="%s %s" % (clsname, sig[:80]), ptrs=list(tr.names), ops=relevant(resolve_calls(ops, resolver))))
     return progs
 
 
-def function_programs(objs, fname, qual=None):
+def function_programs(objs, fname, qual=None, resolver=None):
     progs = []
     def visit(o, cls=None):
         k = o.get("kind")
@@ -340,7 +419,7 @@ def function_programs(objs, fname, qual=None):
             if body:
                 tr = Tr("local")
                 ops = tr.stmt(body[0])
-                progs.append(dict(name="%s%s" % ((qual + "::") if qual else "", fname), where=fname, ptrs=list(tr.names), ops=relevant(ops)))
+                progs.append(dict(name="%s%s" % ((qual + "::") if qual else "", fname), where=fname, ptrs=list(tr.names), ops=relevant(resolve_calls(ops, resolver))))
         for c in o.get("inner", []) or []:
             if c.get("kind") in ("CXXRecordDecl", "CXXMethodDecl", "FunctionDecl", "NamespaceDecl"):
                 visit(c)
@@ -396,8 +475,16 @@ def extract(repo, build, cache_dir, jobs=16):
             objs = clang_ast(repo, build, tu, filt, cache_dir)
         except Exception as e:
             return [], ["clang failed for %s: %s" % (filt, str(e)[-300:])]
+        memo = {}
+        def resolver(fname):
+            if fname not in memo:
+                try:
+                    memo[fname] = callee_effects(clang_ast(repo, build, tu, fname, cache_dir), fname)
+                except Exception:
+                    memo[fname] = {}
+            return memo[fname]
         try:
-            return (class_programs(objs, filt) if kind == "class" else function_programs(objs, filt, q)), []
+            return (class_programs(objs, filt, resolver) if kind == "class" else function_programs(objs, filt, q, resolver)), []
         except Exception as e:
             return [], ["translator failed for %s: %r" % (filt, e)]
 
